@@ -1,5 +1,79 @@
 import Driver.Proto
+import TonicModel.Model.Router
+import TonicModel.Spec.Router
+/-
+C10 driver.  Case line:
+  call <api> <wrap> <http-method> <n> { <pool-idx> <full-name> <k> <method>^k }^n <path-hex> <query-hex|->
+Observed / model line:
+  route <name|-> handler <svc|-> <method|-> status <grpc-status|none>      or   panic
+`api`, `wrap`, the HTTP method, the pool index and the query are ignored by the model: the
+property says they do not matter.
+-/
 namespace DriverC10
-/-- stub: property not yet claimed -/
-def handle (_case _obs : List String) : String × String := ("unclaimed", "fail:unclaimed")
+open Proto Router
+
+def nameBytes (s : String) : Bytes := s.toUTF8.toList
+
+def showName (b : Bytes) : String :=
+  match String.fromUTF8? (ByteArray.mk b.toArray) with
+  | some s => if s.isEmpty then "<empty>" else s
+  | none => hex b
+
+/-- Parse `n` service blocks. -/
+def parseSvcs : Nat → List String → Option (List Svc × List String)
+  | 0, rest => some ([], rest)
+  | n + 1, _idx :: name :: k :: rest =>
+    match nat? k with
+    | none => none
+    | some k =>
+      if rest.length < k then none
+      else
+        let ms := (rest.take k).map nameBytes
+        match parseSvcs n (rest.drop k) with
+        | some (ss, r) => some (⟨nameBytes name, ms⟩ :: ss, r)
+        | none => none
+  | _, _ => none
+
+def render : Outcome → String
+  | .handler s m => s!"route {showName s} handler {showName s} {showName m} status 0"
+  | .svcDefault s => s!"route {showName s} handler - - status 12"
+  | .fallback => "route - handler - - status 12"
+  | .panic => "panic"
+
+def parseObs : List String → Option Spec.Router.Obs
+  | ["route", _, "handler", s, m, "status", st] =>
+    let h := if s == "-" then none else some (nameBytes s, nameBytes m)
+    match optNat? st with
+    | some st => some ⟨h, st⟩
+    | none => none
+  | _ => none
+
+/-- The harness could not even form the request (`http::Uri` rejected the target or split it
+differently): no exchange took place, nothing to judge. -/
+def vacuous (obs : List String) : Bool := obs == ["not-a-uri"] || obs == ["uri-path-differs"]
+
+def handle (case obs : List String) : String × String :=
+  if vacuous obs then (String.intercalate " " obs, "ok") else
+  match case with
+  | "call" :: _api :: _wrap :: _meth :: n :: rest =>
+    match nat? n with
+    | none => bad
+    | some n =>
+      match parseSvcs n rest with
+      | some (reg, [p, _q]) =>
+        match unhex p with
+        | none => bad
+        | some path =>
+          let model := render (dispatch reg path)
+          let decl : Spec.Router.Decl := reg.map (fun s => (s.name, s.methods))
+          let isSet := !(hasDup (decl.map Prod.fst))
+          let v :=
+            if !isSet then "ok"   -- not a *set* of services: outside the property's quantifier
+            else match parseObs obs with
+              | some o => verdict [("dispatch-iff-exact-path-else-unimplemented", Spec.Router.allowed decl path o)]
+              | none => "fail:no-response-observed"
+          (model, v)
+      | _ => bad
+  | _ => bad
+
 end DriverC10
